@@ -413,6 +413,12 @@ def call_contract(ex: Executor, node, st, target: str, extra_first: List[SV] = (
                 d = fs.node.args.defaults[di]
                 if isinstance(d, ast.Constant) and d.value is None:
                     bind[p] = T.None_
+                elif isinstance(d, ast.Constant) and isinstance(d.value, bool):
+                    bind[p] = T.True_ if d.value else T.False_
+                elif isinstance(d, ast.Constant) and isinstance(d.value, int):
+                    bind[p] = T.mkint(d.value)
+                elif isinstance(d, ast.Constant) and isinstance(d.value, str):
+                    bind[p] = T.strc(d.value)
                 elif isinstance(d, ast.Tuple) and not d.elts:
                     bind[p] = ex.new_list(s, z3.IntVal(0), T.EMPTY_ITEMS, K("tuple"), "tuple")
                 else:
@@ -587,6 +593,22 @@ def call_method(ex: Executor, node, st):
         if recv.kind in ("class", "func"):
             raise Unsupported(f"static method call {ast.unparse(f)} at {ex.where(node)}")
         rt = as_val(recv)
+        if isinstance(f.value, ast.Name) and f.value.id == "self" and ex.fn.cls is not None:
+            target = f"{ex.fn.module}:{ex.fn.cls.name}.{meth}"
+            if ex.registry.contract_for(target) is not None:
+                outs.extend(call_contract(ex, node, s, target, extra_first=[recv]))
+                continue
+        if meth in getattr(ex.contract, "abstract_methods", ()):
+            # a method of the visitor machinery outside the proof: an uninterpreted function of
+            # the receiver and the arguments (pure, total)
+            for s2, k2, vs in _args(ex, node, s):
+                if k2 == "exc":
+                    outs.append((s2, k2, vs))
+                    continue
+                fn = z3.Function(f"absm_{meth}_{len(vs)}", *([Val] * (len(vs) + 1)), Val)
+                r = fn(rt, *[ex.val_of(v) for v in vs])
+                outs.append((s2, "val", sv_val(r)))
+            continue
         model = ex.registry.method_model(meth)
         if model is not None and not _is_container(ex, f.value):
             outs.extend(model(ex, node, s, rt))
@@ -1262,7 +1284,13 @@ def functional_instance(ex, node, st, name, mod, real):
             elif fname in kw:
                 vals.append(ex.val_of(kw[fname]))
             else:
-                raise Unsupported(f"functional instance of {name}: missing field {fname}")
+                dflt = _field_default(mod, real, fname)
+                if dflt is None:
+                    raise Unsupported(f"functional instance of {name}: missing field {fname}")
+                evs = ex.eval(dflt, s)
+                if len(evs) != 1 or evs[0][1] != "val":
+                    raise Unsupported(f"functional instance of {name}: default of {fname}")
+                vals.append(ex.val_of(evs[0][2]))
         f = z3.Function(f"mk_{name}", *([Val] * len(fields)), Val)
         t = f(*vals) if fields else z3.Const(f"mk_{name}", Val)
         s.assume(cls(t) == K(name), T.alloc0[t])
@@ -1288,3 +1316,11 @@ def b_issubclass(ex, node, st):
 
 
 BUILTINS["issubclass"] = b_issubclass
+
+
+def _field_default(mod, clsname, fname):
+    cdef = source.find_class(mod, clsname)
+    for stt in cdef.body:
+        if isinstance(stt, ast.AnnAssign) and isinstance(stt.target, ast.Name) and stt.target.id == fname:
+            return stt.value
+    return None
